@@ -53,10 +53,28 @@ class Ctx:
     def layout_impls(self):
         """All KeyboardLayout impls: (short name, self_ty, fn path, is_wrapper)."""
         out = []
+        generic = []
         for self_str, ty, path, sp in self.trait_impls(KL_TRAIT):
+            if Program.has_param(ty):
+                generic.append((self_str, ty, path))      # a blanket impl (`impl<L: KeyboardLayout + ?Sized> KeyboardLayout for &L`)
+                continue
             short = self_str.split('::')[-1]
             wrapper = 'AnyLayout' in self_str
             out.append((self_str if wrapper else short, ty, path, wrapper))
+        # `&AnyLayout` as a layout: its own impl, or the instance of a blanket impl for references
+        byval = [ty for n, ty, p, w in out if w and ty.get('k') == 'adt']
+        if byval and not any(w and ty.get('k') == 'ref' for n, ty, p, w in out):
+            want = {'k': 'ref', 'mut': False, 'to': byval[0]}
+            for self_str, ty, path in generic:
+                binds = {}
+                if Program.unify_ty(ty, want, binds):
+                    tp = self.prog.fns.get(path, {}).get('tparams') or []
+                    if all(n in binds for n in tp):
+                        if not hasattr(self.prog, 'entry_targs'):
+                            self.prog.entry_targs = {}
+                        self.prog.entry_targs[path] = {n: binds[n] for n in tp}
+                        out.append(('&AnyLayout', want, path, True))
+                        break
         return out
 
     def fn(self, path):
